@@ -28,6 +28,7 @@ def main():
     ap.add_argument("--tier", default="quick")
     ap.add_argument("--nth", type=int, default=None, help="replace only the nth (1-based) occurrence")
     ap.add_argument("--patch")
+    ap.add_argument("--script", help="python script run with the scratch copy as argv[1]")
     ap.add_argument("--seed", default="1")
     args = ap.parse_args()
     scratch = tempfile.mkdtemp(prefix="pvmut-", dir="/tmp")
@@ -35,6 +36,8 @@ def main():
         subprocess.check_call(["rsync", "-a", "--exclude", ".git", "--exclude", "__pycache__", "/repo/", scratch + "/"])
         if args.patch:
             subprocess.check_call(["patch", "-p1", "-s", "-d", scratch, "-i", os.path.abspath(args.patch)])
+        elif args.script:
+            subprocess.check_call([sys.executable, os.path.abspath(args.script), scratch])
         else:
             path = os.path.join(scratch, args.file)
             src = open(path).read()
